@@ -39,6 +39,16 @@ func loadReplayRegistry(verif string) []replayEntry {
 	return r
 }
 
+// hasReplay: is there a stored scenario for this obligation?
+func hasReplay(c *Ctx, o *Oblig) bool {
+	for _, re := range loadReplayRegistry(c.verif) {
+		if strings.Contains(o.Name, re.Match) {
+			return true
+		}
+	}
+	return false
+}
+
 func runReplay(c *Ctx, o *Oblig, b *strings.Builder) bool {
 	if os.Getenv("GOVC_NO_REPLAY") != "" {
 		return false
@@ -58,7 +68,28 @@ func runReplay(c *Ctx, o *Oblig, b *strings.Builder) bool {
 	return false
 }
 
+type scenarioResult struct {
+	ok  bool
+	out string
+}
+
+// one run per scenario and loaded tree (a scenario may be registered for many obligations)
+var scenarioCache = map[*Ctx]map[string]scenarioResult{}
+
 func runScenario(c *Ctx, re replayEntry) (bool, string) {
+	key := re.Test + "|" + re.Pkg + "|" + re.Run
+	if r, ok := scenarioCache[c][key]; ok {
+		return r.ok, r.out
+	}
+	ok, out := runScenarioUncached(c, re)
+	if scenarioCache[c] == nil {
+		scenarioCache[c] = map[string]scenarioResult{}
+	}
+	scenarioCache[c][key] = scenarioResult{ok, out}
+	return ok, out
+}
+
+func runScenarioUncached(c *Ctx, re replayEntry) (bool, string) {
 	tmp, err := os.MkdirTemp("", "govc-replay")
 	if err != nil {
 		return false, err.Error()
